@@ -106,6 +106,33 @@ in the state where A is in force or in the state where B is; the lookup made aft
 quiet must be accepted in the state where B is. -/
 def step (st : St) (op res : String) : St × List String :=
   match words op with
+  | "fpair" :: proto :: mac :: _ =>
+    -- pairs of rewrites in quick succession of a long file (harness/filec.go): after each pair the
+    -- served table must be the LAST file written — an update may not be lost
+    match res.splitOn " ; " with
+    | [oa, ob, aft, fin, lastW] =>
+      match parseLines oa.trimAscii.toString, parseLines ob.trimAscii.toString with
+      | some la, some lb =>
+        let v6 := proto == "6"
+        let lastIsB := lastW.trimAscii.toString == "last=B"
+        let ll := if lastIsB then lb else la
+        let (sL, okL) := st.s.load v6 ll
+        let stL : St := { s := sL, mon := (st.mon.step (.refresh v6 ll)).1 }
+        if !okL then (st, ["DIVERGE drift fpair with a malformed file"]) else
+        let qop := if v6 then s!"fq6 {mac} 1 0" else s!"fq4 {mac}"
+        let r := (aft.trimAscii.toString.drop 6).toString
+        let accepted := !((stepBasic stL qop (if v6 then s!"xm {mac} ; {r}" else r)).2.any (fun m => m.startsWith "DIVERGE" || m.startsWith "FAIL"))
+        let fin := fin.trimAscii.toString
+        let msgs :=
+          (if fin == "settled" then [] else
+            ["DIVERGE dom model=last-file-in-force",
+             s!"FAIL C10 two rewrites of the lease file in quick succession: the second was never picked up ({fin})",
+             s!"FAIL C16 two refreshes in quick succession: the table stays on the older file ({fin}); no one-at-a-time order of the refreshes does that"]) ++
+          (if accepted || fin != "settled" then [] else
+            ["DIVERGE dom model=answer-of-the-last-file", s!"FAIL C10 after the rewrites the client is served [{r}], not what the file in force lists"])
+        (stL, "br:fpair" :: msgs)
+      | _, _ => (st, ["DIVERGE drift unparsed-oracle"])
+    | _ => (st, ["DIVERGE drift unparsed-result"])
   | "fhammer" :: proto :: mac :: _ =>
     match res.splitOn " ; " with
     | [oa, ob, obs, fin] =>
